@@ -624,6 +624,18 @@ impl ByteViewArrayDecoderDeltaLength {
         let mut current_offset = self.data_offset;
         let initial_offset = current_offset;
 
+        if self.validate_utf8 {
+            // The values are validated as one contiguous string below; for every single value to
+            // be valid UTF-8 each one must also start on a character boundary
+            let mut start_offset = initial_offset;
+            for length in src_lengths {
+                if *length > 0 && (self.data[start_offset] as i8) < -0x40 {
+                    return Err(general_err!("encountered non UTF-8 data"));
+                }
+                start_offset += *length as usize;
+            }
+        }
+
         output.views.extend(src_lengths.iter().map(|length| {
             let len = *length as u32;
             let start_offset = current_offset;
@@ -722,6 +734,11 @@ impl ByteViewArrayDecoderDelta {
             let mut utf8_validation_buffer = Vec::with_capacity(4096);
 
             let v = self.decoder.read(len, |bytes| {
+                // The values are validated as concatenated strings below; for every single
+                // value to be valid UTF-8 each one must also start on a character boundary
+                if bytes.first().is_some_and(|b| (*b as i8) < -0x40) {
+                    return Err(general_err!("encountered non UTF-8 data"));
+                }
                 let offset = array_buffer.len();
                 let view = make_view(bytes, buffer_id, offset as u32);
                 if bytes.len() > 12 {
